@@ -35,6 +35,16 @@ CLAIMED['C06'] = dict(
     technique="CFG must-pass-through, dominance/post-dominance pairing and argument-flow rules over the clang-resolved AST of all modifiers, helpers, LP primitives and solver overrides",
     ref="DESIGN.md section 4, C06")
 
+CLAIMED['C11'] = dict(
+    text="Structural necessary conditions, exhaustively over every rule instance: no floating-point value enters a Rational in any member function of "
+         "CLUFactorRational / SLUFactorRational or in the assembly and query functions of the rational basis matrix (with a positive control "
+         "for the matcher); every entry point that can change the basis matrix, its dimension or the basis drops the cached factorization in "
+         "every sync mode in which it mutates the rational LP; the exact basis queries refactorize when needed, never use a factorization whose "
+         "status is not OK, use left/right solves and the caller's index correctly, and the matrix is assembled from the rational LP by the "
+         "freshly refilled basis indices. Not a proof that the elimination is correct or that singularity is detected exactly.",
+    technique="type-directed conversion lint over the resolved AST; call-graph must-summaries under sync-mode assumptions; guarded-reachability and dominance rules",
+    ref="DESIGN.md section 4, C11")
+
 NA = {
     'C10': "every clause quantifies over run-time numbers (residuals at rounding level, singular vs. well-conditioned, agreement of multi-rhs solves); "
            "no structural clause is both checkable and necessary (DESIGN.md section 5)",
